@@ -33,6 +33,8 @@ def run(chk):
             rnd = mem.random_scripts(chk.rng, 4000, 250, "all", stray=0.04, na=6, ng=4)
         vlib.run_scripts(chk, mem, c_exe, m_exe, rnd, mem.oracle)
         base.search_near(chk, c_exe, m_exe)
+    from areas import mem_tie
+    mem_tie.tie_run(chk)
     return chk.finish()
 
 
